@@ -4,7 +4,7 @@
 From Coq Require Import NArith ZArith List Bool.
 Import ListNotations.
 Require Import UV.C07.Model UV.C07.Check UV.C07.Proofs UV.C07.Replay UV.C07.RecordReplay.
-Require UV.C07.RecordProof UV.C07.Range UV.C07.Multi.
+Require UV.C07.RecordProof UV.C07.Range UV.C07.Multi UV.C07.MultiReplay.
 Local Open Scope Z_scope.
 
 (* get_task_ustack's look-ahead list (time filter -t / time=, caller filter -C, `trace`) hands the
@@ -109,6 +109,20 @@ Theorem C07_commands_agree_nomerge_tasks : forall c ss, plt_free_all c -> no_mer
   run_rp_m c ss = run_std_m c ss.
 Proof. exact Multi.nomerge_multi. Qed.
 Print Assumptions C07_commands_agree_nomerge_tasks.
+
+(* replay WITH leaf folding over several tasks (fstack_skip peeks at the globally next record, which may belong
+   to another task): same calls as report/graph/dump, all option sets (trace_on/off, -r included), all
+   depth-consistent task streams; and every task of replay shows the documented selection of its forest. *)
+Theorem C07_commands_agree_replay_tasks : forall c ss, plt_free_all c ->
+  (forall t, dcons0 (pre c (nth t ss []))) -> run_rp_m c ss = run_std_m c ss.
+Proof. exact MultiReplay.replay_multi. Qed.
+Print Assumptions C07_commands_agree_replay_tasks.
+
+Theorem C07_matches_documented_replay_tasks : forall c fs t,
+  plt_free_all c -> no_switch_all c -> no_range c = true -> (t < length fs)%nat ->
+  Multi.of_task t (run_rp_m c (map (flats 0) fs)) = select c (nth t fs []).
+Proof. exact MultiReplay.replay_multi_select. Qed.
+Print Assumptions C07_matches_documented_replay_tasks.
 
 (* --no-libcall breaks the agreement: replay tests the symbol type before fstack_entry *)
 Theorem C07_no_libcall_commands_agree_refuted :
